@@ -179,6 +179,8 @@ fn main() {
     let mut threads_mask: u64 = u64::MAX;
     let mut max_ops: usize = usize::MAX;
     let mut list = false;
+    let mut print_refs = false;
+    let mut expect: Option<u64> = None;
     let mut i = 2;
     while i < args.len() {
         match args[i].as_str() {
@@ -193,6 +195,14 @@ fn main() {
             "--list" => {
                 list = true;
                 i += 1;
+            }
+            "--print-refs" => {
+                print_refs = true;
+                i += 1;
+            }
+            "--expect" => {
+                expect = u64::from_str_radix(&args[i + 1], 16).ok();
+                i += 2;
             }
             _ => i += 1,
         }
@@ -250,9 +260,26 @@ fn main() {
         }
     }
     let mut mismatches = 0;
+    let mut ref_hash: u64 = 0xcbf29ce484222325;
     for op in &distinct {
         let o2 = op.clone();
         let reference = std::thread::spawn(move || exec(&o2)).join().expect("reference thread panicked");
+        match &reference {
+            Ok(v) => {
+                for x in v {
+                    ref_hash = (ref_hash ^ x).wrapping_mul(0x100000001b3);
+                }
+            }
+            Err(e) => {
+                for x in e.bytes() {
+                    ref_hash = (ref_hash ^ x as u64).wrapping_mul(0x100000001b3);
+                }
+            }
+        }
+        ref_hash = ref_hash.rotate_left(5);
+        if print_refs {
+            println!("REF {:?} => {:?}", op, reference);
+        }
         for (t, op2, res, _, _) in &all {
             if op2 == op && *res != reference {
                 mismatches += 1;
@@ -279,6 +306,15 @@ fn main() {
             open.push(*t);
         } else {
             open.retain(|x| x != t);
+        }
+    }
+    println!("REFHASH {:016x}", ref_hash);
+    if let Some(e) = expect {
+        // cross-engine oracle: the same scenario run natively, one op per fresh thread, in another
+        // process and outside the interpreter must give the same bits
+        if e != ref_hash {
+            mismatches += 1;
+            println!("MISMATCH reference values differ from the natively computed ones: {:016x} vs {:016x}", ref_hash, e);
         }
     }
     println!("MIRI-SCN seed={} threads={} ops={} distinct_ops={} order={:016x} overlap={} mismatches={}", seed, plans.len(), all.len(), distinct.len(), h, overlap, mismatches);
